@@ -14,7 +14,7 @@ VERIF = Path(__file__).resolve().parent.parent
 REPO = Path(os.environ.get('T4GC_REPO', '/repo'))
 COQ = VERIF / 'coq'
 GEN = COQ / 'generated'
-EVID = VERIF / 'evidence'
+EVID = Path(os.environ.get('T4GC_EVIDENCE_DIR', VERIF / 'evidence'))
 REPLAYS = VERIF / 'replays'
 COQ_FLAGS = ['-Q', str(COQ), 'T4V', '-w',
              '-notation-overridden,-deprecated-hint-without-locality,'
